@@ -115,15 +115,17 @@ def contents_length(kind, ref):
     return max(0, len(ref) - 2)
 
 
-def program_lines(seed, pad):
-    """A program whose size grows by exactly one byte per unit of pad (comment text)."""
+def program_lines(seed, pad, nlines):
+    """
+    A program whose size grows by exactly one byte per unit of pad: `nlines` comment lines (fixed by the
+    caller from the target size, so that the line overhead does not change while pad is adjusted).
+    """
     rng = random.Random('c29prog:%s' % seed)
     lines = [b'10 A%%=%d:B$="%s"' % (rng.randint(0, 32767), bytes(rng.choice(b'abcXYZ 123') for _ in range(rng.randint(0, 6))))]
     n = 20
-    while pad > 0:
-        k = min(pad, 200)
+    for i in range(nlines):
+        k = pad // nlines + (1 if i < pad % nlines else 0)
         lines.append(b"%d '%s" % (n, bytes(rng.choice(b'abcdefghijklmnopqrstuvwxyz') for _ in range(k))))
-        pad -= k
         n += 10
     lines.append(b'%d PRINT A%%;B$' % n)
     return lines
@@ -236,12 +238,13 @@ def write_file(tape, box, idx, f):
         suffix = {'B': b'', 'A': b',A', 'P': b',P'}[kind]
         ref = 'REF%d.BAS' % idx
         # f['len'] = length of the contents as they go to tape: tokenised bytes (B, P) or text with CR line ends (A)
-        target = max(f['len'], 40)
-        pad = max(0, target - 40)
+        target = max(f['len'], 60)
+        nlines = target // 180 + 1
+        pad = max(0, target - 60)
         size = None
         for attempt in range(5):
             tape.ok(box, b'NEW', 'new')
-            for l in program_lines(f['seed'], pad):
+            for l in program_lines(f['seed'], pad, nlines):
                 tape.ok(box, l, 'enter-line')
             tape.ok(box, b'SAVE "C:%s"%s' % (ref.encode(), suffix), 'save-disk')
             size = contents_length(kind, tape.host(ref) or b'')
